@@ -97,7 +97,7 @@ Print Assumptions C05_prepare_source_same_in_every_kind.
    protected bytes, payload and signature / tag / ciphertext the object emits *)
 Theorem C05_history_marshal_names_key_alg : forall k ops key b,
   single k = true -> Forall (op_wf k) ops -> origin_after k fresh FromNothing ops = FromProduce key -> marshal_out k (final k fresh ops) = RBytes b ->
-  exists m pb w, marshal_simple k w = Some b /\ w_prot w = Some pb /\ headers_bytes m = Some pb /\ alg_gate m (key_alg key) = true.
+  exists m pb w, marshal_of k w (o_recips (final k fresh ops)) = Some b /\ w_prot w = Some pb /\ headers_bytes m = Some pb /\ alg_gate m (key_alg key) = true.
 Proof. exact history_marshal_names_key_alg. Qed.
 Print Assumptions C05_history_marshal_names_key_alg.
 
